@@ -1,11 +1,11 @@
 package main
 
 import (
-	"runtime/pprof"
 	"fmt"
 	"io"
 	"log"
 	"os"
+	"runtime/pprof"
 )
 
 func main() {
